@@ -38,7 +38,9 @@ CLAIMS["C02"] = dict(
          "concatenation contracts on the real deferred.py; (3) the accounting invariant 'error or address == start + bytes so far', together with 'each statement is handed "
          "the running address', over statement lists of ARBITRARY length (loop contract on the real compile_block) and repeat counts of arbitrary size, across 1-3 linked "
          "files and includes; (4) deferred bodies read no variable that changes after their construction (late binding). Zero-size directives emit nothing; .include and "
-         "insert_file produce the file's code with an honest length. A run-time check probes every label of the 21-program corpus and of probe programs (testing).",
+         "insert_file produce the file's code with an honest length. A run-time check probes every label of the 21-program corpus and of probe programs (testing), "
+         "'.' inside repeated bodies, and labels of including / included files. Open finding D38: '. = X' or '.link' inside an INCLUDED file re-bases that file only "
+         "(its labels are then not where its bytes lie); the include probes hold outside that region.",
     note="Trusted: pyvc incl. loop contracts and the Lazy/view abstraction (justified by the deferred.py units), z3. Modular: compile_block is proved against the statement "
          "compilers' contracts, which are discharged in their own units. File contents and parser.parse are external.",
 )
